@@ -657,7 +657,10 @@ def make_judge(col):
             if te.is_transformed:
                 stages.append(('E', pg.translate(prog, lang)))
         except Exception as e:
+            # erasure stopped half-way (budget or crash): prog is partly erased and matches neither text - the G stage is
+            # judged on the fresh regeneration below, the E stage is dropped
             col.feature('pipeline_exception(C18 territory):' + type(e).__name__)
+            stages = []
         total_items = 0
         erased = overwritten = False
         generic = False
